@@ -1,4 +1,5 @@
 import SleapVerif.Lemmas.TrackerHistory
+import SleapVerif.Lemmas.TrackFeatures
 /-!
 # C10 — well-separated animals keep their identity
 
@@ -291,6 +292,122 @@ def hungarian_picks_identity_full (R : Type) [Field R] [LinearOrder R] [IsStrict
   ∀ ext : Ext R, ExtOk ext → LsaOptimal ext → LsaPicksIdentity ext
 
 end histories
+
+/-! ## feature / score functions: IoU and Euclidean distance discharge the separation hypothesis -/
+
+section geometry
+open SleapVerif.TrackFeatures
+variable {R : Type} [Field R] [LinearOrder R] [IsStrictOrderedRing R]
+
+/-- `compute_iou` of well-formed boxes lies in `[0, 1]` -/
+theorem iou_range (a b : Box R) (ha : WF a) (hb : WF b) : 0 ≤ scoreIou a b ∧ scoreIou a b ≤ 1 :=
+  TrackFeatures.iou_range a b ha hb
+
+theorem iou_symm (a b : Box R) : scoreIou a b = scoreIou b a := TrackFeatures.iou_symm a b
+
+/-- a box compared with itself scores 1 even when its width or height is 0 (collinear keypoints,
+    single visible keypoint) — what the inclusive `+1` of `compute_iou` buys -/
+theorem iou_self_is_one_degenerate (a : Box R) (ha : WF a) : scoreIou a a = 1 :=
+  TrackFeatures.iou_self_is_one_degenerate a ha
+
+/-- zero-height box, single point: still 1 -/
+example : scoreIou ((1 : Rat), 2, 5, 2) (1, 2, 5, 2) = 1 ∧ scoreIou ((3 : Rat), 4, 3, 4) (3, 4, 3, 4) = 1 :=
+  ⟨iou_self_is_one_degenerate _ ⟨by norm_num, by norm_num⟩,
+   iou_self_is_one_degenerate _ ⟨by norm_num, by norm_num⟩⟩
+
+/-- boxes at least one pixel apart in x or y score 0 -/
+theorem iou_disjoint_zero (a b : Box R) (h : TrackFeatures.Disjoint a b) : scoreIou a b = 0 :=
+  TrackFeatures.iou_disjoint_zero a b h
+
+/-- `get_bbox` returns a well-formed box for every pose with a visible keypoint -/
+theorem bbox_wellformed (pts : List (Oks.Pt R)) (b : Box R) (h : bbox pts = some b) : WF b :=
+  bbox_wf pts b h
+
+/-- **iou_dominance**: own box overlaps, foreign boxes disjoint ⇒ the own score is strictly larger -/
+theorem iou_dominance (a f g f' : Box R) (ha : WF a) (hf : WF f) (ho : Overlap a f)
+    (hd : TrackFeatures.Disjoint g f') : scoreIou g f' < scoreIou a f :=
+  TrackFeatures.iou_dominance a f g f' ha hf ho hd
+
+/-- triangle inequality of the modelled distance for any lawful `sqrt` -/
+theorem euclid_triangle (T : Transc R) (a b c : R × R) :
+    T.sqrt (dist2 a c) ≤ T.sqrt (dist2 a b) + T.sqrt (dist2 b c) := dist_triangle T a b c
+
+/-- **euclid_dominance**: own motion ≤ μ, foreign pair ≥ σ − μ apart, `2μ < σ` -/
+theorem euclid_dominance (T : Transc R) (a f g f' : R × R) (μ σ : R) (hμσ : 2 * μ < σ)
+    (hown : T.sqrt (dist2 a f) ≤ μ) (hfar : σ - μ ≤ T.sqrt (dist2 g f')) :
+    scoreEuclid T.sqrt g f' < scoreEuclid T.sqrt a f :=
+  TrackFeatures.euclid_dominance T a f g f' μ σ hμσ hown hfar
+
+/-- the geometric class for bboxes+iou gives the scene class (separation discharged) -/
+theorem iou_scene_class (who : Box R → Nat) (thr : R) (cands : Nat → List (Box R)) (m : Nat)
+    (cur : List (Box R × R)) (h : IouFrame who thr cands m cur) :
+    SceneFrame who scoreIou thr cands m cur := sceneFrame_of_iou who thr cands m cur h
+
+/-- the geometric class for centroids+euclidean_dist gives the scene class -/
+theorem euclid_scene_class (T : Transc R) (μ σ : R) (who : R × R → Nat) (thr : R)
+    (cands : Nat → List (R × R)) (m : Nat) (cur : List ((R × R) × R))
+    (h : EuclidFrame T μ σ who thr cands m cur) :
+    SceneFrame who (scoreEuclid T.sqrt) thr cands m cur := sceneFrame_of_euclid T μ σ who thr cands m cur h
+
+/-- **headline for bboxes + iou, geometry only** (fixed window, greedy): overlap with the own
+    stored boxes and ≥ 1 px gaps to foreign ones on every frame ⇒ identities are preserved -/
+theorem identity_preserved_fw_greedy_iou (cfg : Config R) (hfx : cfg.fx = Fixes.repaired)
+    (hg : cfg.matcher = .greedy) (ext : Ext R) (hext : ExtOk ext) (hsort : ArgsortSorted ext)
+    (who : Box R → Nat) (frames : List (List (Box R × R)))
+    (hcl : FW.InClassWith (IouFrame who cfg.thr) cfg ext scoreIou FW.empty frames) :
+    ∃ s' outs owner, run (FW.step cfg ext scoreIou) FW.empty frames = .ok (s', outs) ∧
+      InjOn owner s'.tracks.length ∧
+      List.Forall₂ (FrameOwned who owner s'.tracks.length) frames outs :=
+  identity_preserved_fw_greedy cfg hfx hg ext hext hsort scoreIou who frames
+    (FW.inClass_of_with _ cfg ext scoreIou who (fun c m cur h => sceneFrame_of_iou who cfg.thr c m cur h)
+      frames FW.empty hcl)
+
+theorem identity_preserved_lq_greedy_iou (cfg : Config R) (hfx : cfg.fx = Fixes.repaired)
+    (hw : 0 < cfg.window) (hg : cfg.matcher = .greedy) (ext : Ext R) (hext : ExtOk ext)
+    (hsort : ArgsortSorted ext) (who : Box R → Nat) (frames : List (List (Box R × R)))
+    (hcl : LQ.InClassWith (IouFrame who cfg.thr) cfg ext scoreIou LQ.empty frames) :
+    ∃ s' outs owner, run (LQ.step cfg ext scoreIou) LQ.empty frames = .ok (s', outs) ∧
+      InjOn owner s'.tracks.length ∧
+      List.Forall₂ (FrameOwned who owner s'.tracks.length) frames outs :=
+  identity_preserved_lq_greedy cfg hfx hw hg ext hext hsort scoreIou who frames
+    (LQ.inClass_of_with _ cfg ext scoreIou who (fun c m cur h => sceneFrame_of_iou who cfg.thr c m cur h)
+      frames LQ.empty hcl)
+
+/-- **headline for centroids + euclidean_dist, geometry only** (motion < ½ separation) -/
+theorem identity_preserved_fw_greedy_euclid (T : Transc R) (μ σ : R) (cfg : Config R)
+    (hfx : cfg.fx = Fixes.repaired) (hg : cfg.matcher = .greedy) (ext : Ext R) (hext : ExtOk ext)
+    (hsort : ArgsortSorted ext) (who : R × R → Nat) (frames : List (List ((R × R) × R)))
+    (hcl : FW.InClassWith (EuclidFrame T μ σ who cfg.thr) cfg ext (scoreEuclid T.sqrt) FW.empty frames) :
+    ∃ s' outs owner, run (FW.step cfg ext (scoreEuclid T.sqrt)) FW.empty frames = .ok (s', outs) ∧
+      InjOn owner s'.tracks.length ∧
+      List.Forall₂ (FrameOwned who owner s'.tracks.length) frames outs :=
+  identity_preserved_fw_greedy cfg hfx hg ext hext hsort (scoreEuclid T.sqrt) who frames
+    (FW.inClass_of_with _ cfg ext _ who
+      (fun c m cur h => sceneFrame_of_euclid T μ σ who cfg.thr c m cur h) frames FW.empty hcl)
+
+theorem identity_preserved_lq_greedy_euclid (T : Transc R) (μ σ : R) (cfg : Config R)
+    (hfx : cfg.fx = Fixes.repaired) (hw : 0 < cfg.window) (hg : cfg.matcher = .greedy) (ext : Ext R)
+    (hext : ExtOk ext) (hsort : ArgsortSorted ext) (who : R × R → Nat)
+    (frames : List (List ((R × R) × R)))
+    (hcl : LQ.InClassWith (EuclidFrame T μ σ who cfg.thr) cfg ext (scoreEuclid T.sqrt) LQ.empty frames) :
+    ∃ s' outs owner, run (LQ.step cfg ext (scoreEuclid T.sqrt)) LQ.empty frames = .ok (s', outs) ∧
+      InjOn owner s'.tracks.length ∧
+      List.Forall₂ (FrameOwned who owner s'.tracks.length) frames outs :=
+  identity_preserved_lq_greedy cfg hfx hw hg ext hext hsort (scoreEuclid T.sqrt) who frames
+    (LQ.inClass_of_with _ cfg ext _ who
+      (fun c m cur h => sceneFrame_of_euclid T μ σ who cfg.thr c m cur h) frames LQ.empty hcl)
+
+/-- NOT PROVED (kept visible): the OKS bridging lemma.  For poses `a` (detection), `f` (own stored)
+    and `f'` (foreign stored) with the same visible nodes, if every keypoint of `a` is closer to the
+    corresponding keypoint of `f` than to that of `f'`, then `oks a f' < oks a f`
+    (monotonicity of `exp`; `Oks.oks` is C15's model of `compute_oks`).  The harness measures the
+    OKS separation margin per frame instead. -/
+def oks_dominance (score : List (Oks.Pt R) → List (Oks.Pt R) → R) : Prop :=
+  ∀ a f f' : List (Oks.Pt R),
+    (∀ i : Nat, ∀ pa ∈ (a[i]? >>= Oks.vis), ∀ pf ∈ (f[i]? >>= Oks.vis), ∀ pf' ∈ (f'[i]? >>= Oks.vis),
+      Oks.d2 pa pf < Oks.d2 pa pf') → score a f' < score a f
+
+end geometry
 
 /-! ## non-vacuity: a concrete frame of the class -/
 
